@@ -60,9 +60,11 @@ claim("C05",
       "M: unify_fixnum / unify_big_integer / unify_big_rational succeed exactly when the value "
       "comparison of the instruction's number with the cell's number says equal, for every "
       "representation of the cell, and fail on floats. K: bignum and fixnum cells are in the "
-      "same standard-order class.",
-      "dashu num_eq/eq trusted; integer-taking builtins, sorting and the database are outside "
-      "(index keys: C06).",
+      "same standard-order class; all 40 representation arms of Number::{cmp, eq}; every branch on a "
+      "Number's representation outside the arithmetic kernels (60 sites) handles Integer iff it "
+      "handles Fixnum.",
+      "dashu num_eq/eq trusted; what an integer-taking builtin computes in its Integer arm is only "
+      "replayed (differential set), sorting and the database are outside (index keys: C06).",
       M + " + " + K, "DESIGN.md §4 C05", engine="mirsmt+kani")
 claim("C06",
       "The key expressions of first-argument indexing on the call side and the clause side are "
@@ -83,16 +85,25 @@ claim("C11",
       "M: MachineState::trail pushes an entry of the cell's kind whenever the bound cell is "
       "older than the newest choice point (h < hb, h < b) - sufficiency, decided by z3 over all "
       "h, hb, b - and Machine::unwind_trail resets a trailed cell to the unbound variable of its "
-      "kind at the same index.",
-      "hb/b/tr maintenance, attribute lists, bb_b_put and Prolog-level constructs outside.",
+      "kind at the same index; bind / bind_attr_var and every system_calls.rs function that calls "
+      "trail() (attribute lists, backtrackable global variables) trail each heap-cell / slot store "
+      "on every path with an entry of the needed kind naming the same location; tr advances by the "
+      "number of entries pushed.",
+      "hb/b/tr maintenance by choice points, the unwinding arms of list links and blackboard "
+      "entries, stores followed by a resource-error return, Prolog-level constructs outside.",
       M, "DESIGN.md §4 C11", engine="mirsmt")
 claim("C13",
       "K: order_category puts every cell kind in the class the standard order prescribes "
       "(bignum = fixnum = Integer; f/0 = Atom), the category order is Var < Float < Integer < Atom "
-      "< Compound, atoms order bytewise, numbers by value.",
-      "compare_pstr_slices and ParallelHeapIter (compound comparison, strings vs lists, "
-      "transitivity over compounds) are outside.",
-      K, "DESIGN.md §4 C13")
+      "< Compound, atoms order bytewise, numbers by value. M: in ParallelHeapIter::next every "
+      "compound arm pushes the tail pair first and the head pair last, each component from its own "
+      "side (z3 over 64-bit indices), functors are compared as (arity, name) left first, structure "
+      "arguments are pushed in reverse; compare_pstr_slices' tail indices and mismatch window; "
+      "Atom::cmp = str::cmp on the texts.",
+      "the byte loop of compare_pstr_slices, the tabu list (cyclic terms), compare_term_test's "
+      "folding of the pair stream, transitivity over whole compounds; invariant assumed: no Str cell "
+      "is './2'.",
+      K + " + " + M, "DESIGN.md §4 C13", engine="kani+mirsmt")
 claim("C18",
       "K: one CharReader operation from every reader state (buf.len <= 8, pos, next chunk <= 4 "
       "then EOF) with all bytes symbolic: result = RFC 3629 decoding of the unread bytes ++ "
@@ -104,23 +115,28 @@ claim("C20",
       "K: for strings of concrete small lengths with symbolic bytes, what push_pstr_segment "
       "writes and what scan_slice_to_str / pstr_tail_idx / compute_pstr_size / slice_to_str / "
       "copy_pstr_within / last_str_char_and_tail compute agree; the index identities hold for "
-      "every length < 2^48.",
-      "allocate_pstr/allocate_cstr as a whole (str::find), NUL-splicing, HeapPStrIter and all "
-      "string-consuming builtins outside; ASCII contents.",
-      K, "DESIGN.md §4 C20")
+      "every length < 2^48. M: compare_pstr_slices hands back tail + (pos + own offset)/8 for each "
+      "ended string and re-reads a window [pos-3, min(pos+4, len)) on a mismatch.",
+      "allocate_pstr/allocate_cstr as a whole (str::find), NUL-splicing, HeapPStrIter, the copier "
+      "and all string-consuming builtins outside; ASCII contents in K.",
+      K + " + " + M, "DESIGN.md §4 C20", engine="kani+mirsmt")
 claim("C21",
       "K: inline atoms round-trip text <-> index for lengths 1..6 (1-2 symbolic bytes), char "
       "atoms, AtomCell packing, bytewise order. z3: every entry of the generated atom! table "
-      "carries the index the inline rule gives and indices are distinct.",
-      "interned (dynamic) atoms - IndexSet, RCU, locks - are outside.",
+      "carries the index the inline rule gives and indices are distinct; the run-time guard of "
+      "AtomTable::build_with sends exactly the texts with 1 <= len <= 6 and no NUL to "
+      "Atom::new_inlined; Atom::cmp = str::cmp on the texts.",
+      "interned (dynamic) atoms - IndexSet, RCU, locks, table growth - are outside.",
       K + " + finite z3 table check", "DESIGN.md §4 C21", engine="kani+z3")
 claim("C30",
       "K: with heap growth failing (realloc's failure contract injected at InnerHeap::grow) "
       "every fallible Heap operation returns AllocError and leaves length, capacity, pointer, "
-      "resource_err_loc and every byte unchanged.",
-      "store_resource_error/functor_writer, propagation macros, catchability and later goals "
-      "are outside; allocation failure inside dashu/Vec aborts.",
-      K, "DESIGN.md §4 C30")
+      "resource_err_loc and every byte unchanged; InnerHeap::grow itself honours that contract when "
+      "the allocator returns null. M: copier::copy_term restores the source term on every "
+      "returning path, error returns included.",
+      "store_resource_error/functor_writer, propagation macros, catchability and later goals in "
+      "general are outside; allocation failure inside dashu/Vec aborts.",
+      K + " + " + M, "DESIGN.md §4 C30", engine="kani+mirsmt")
 claim("C55",
       "K: the quoting decision equals an ISO 6.4.2 reference for every ASCII text of 0..3 (4 in "
       "thorough) chars, escapes of 6.4.2.1, token-separation sufficiency for all ASCII char "
